@@ -134,6 +134,17 @@ def run_cases(chk, tier):
             check_array(chk, kind, st, arr[3:9], els[3:9], hist=["[3:9]"], r=r)
             check_array(chk, kind, st, arr[len(els) - 4:], els[len(els) - 4:], hist=["tail"], r=r)
         chk.sample(dict(kind=kind, family="all ring directions + degenerate rings", elements=els[:4]), cap=6)
+        # the same rings far from the origin (coordinates and every term x*(dy) of the coded sum stay exactly representable):
+        # the direction of a ring does not depend on where it lies
+        for (ox, oy) in ((2 ** 28, -2 ** 27), (10 ** 8, 10 ** 8 + 1), (-2 ** 36, 2 ** 40), (r.randint(2 ** 26, 2 ** 34), -r.randint(2 ** 26, 2 ** 34))):
+            def shift(x, ox=ox, oy=oy):
+                if isinstance(x, list) and x and not isinstance(x[0], list):
+                    return [c + (ox if i % 2 == 0 else oy) for i, c in enumerate(x)]
+                return None if x is None else [shift(y) for y in x]
+            far = [shift(e) for e in els]
+            for st in ("float64", "int64"):
+                check_array(chk, kind, st, geo.make_array(kind, far, st), far, hist=[f"translated by ({ox}, {oy})"], r=r)
+            chk.count("far-from-origin")
         # valid consistently wound family (both global windings) for the area / intersection clauses
         vals = [wrap(p) for p in geo.polygons_family(tier)[::7]] + [None]
         if kind == "multipolygon":
